@@ -129,6 +129,18 @@ def handle (op : String) (arg : String) : Option String :=
     match run (mkObj ob) (hh != 0) ts (St.init (t0 != 0)) rq with
     | some (s, vs) => some (showMat toString vs ++ "#" ++ showSt s)
     | none => some "raise"
+  | "c19.pred2", [hh, ts, t0, ob, rq, px, py] => do
+    -- as `c19.pred`, with a training set pre-seeded through `add_data` (pairs px / py) before the first request
+    let hh ← parseNat? hh
+    let ts ← parseInt? ts
+    let t0 ← parseNat? t0
+    let ob ← parseMat? parseInt? ob
+    let rq ← parseReqs? rq
+    let px ← parseMat? parseInt? px
+    let py ← parseMat? parseInt? py
+    match run (mkObj ob) (hh != 0) ts { St.init (t0 != 0) with xs := px, ys := py } rq with
+    | some (s, vs) => some (showMat toString vs ++ "#" ++ showSt s)
+    | none => some "raise"
   | _, _ => none
 
 end Artap.Surrogate
